@@ -47,7 +47,7 @@ def run_native(unit, variant, scratch, tier):
         res['reason'] = 'native enumeration failed (rc=%d): %s' % (r.returncode, (r.stdout[-400:] + r.stderr[-400:]))
         return res
     res['obligations'] = obls
-    if any(o['name'] == 'native.crash' for o in obls) and not extra.get('distinct_inputs'):
+    if any(o['name'] in ('native.crash', 'native.hang') for o in obls) and not extra.get('distinct_inputs'):
         # the real code died on an enumerated input before the summary lines were printed: that input was enumerated
         extra['distinct_inputs'] = 1
         extra.setdefault('space', 'run ended by a signal in the real code (see the failing input of native.crash)')
